@@ -6,9 +6,9 @@ SD=$1; K=$2; WT=$3; CHECKS=$4
 cd $WT && git checkout -q -- . && /venv/bin/python $SD/demo$K.py $WT >/dev/null 2>&1; A=$?
 git apply $SD/patch$K.diff && /venv/bin/python $SD/demo$K.py $WT >/dev/null 2>&1; B=$?
 T=skipped
-if [ -z "$SKIPTESTS" ]; then timeout 900 /venv/bin/python -m pytest -q -p no:cacheprovider spowtd/test/test_classify.py spowtd/test/test_load.py spowtd/test/test_cli.py >/tmp/seedtests.log 2>&1; T=$?; fi
+if [ -z "$SKIPTESTS" ]; then timeout 900 /venv/bin/python -m pytest -q -p no:cacheprovider ${TESTS:-spowtd/test/test_classify.py spowtd/test/test_load.py spowtd/test/test_cli.py} >/tmp/seedtests.log 2>&1; T=$?; fi
 git checkout -q -- .
-echo "demo without change: exit $A (want 0); with change: exit $B (want 1); tests with change: exit $T (want 0)"
+echo "tests: $(tail -1 /tmp/seedtests.log 2>/dev/null)"; echo "demo without change: exit $A (want 0); with change: exit $B (want 1); tests with change: exit $T (want 0)"
 cd /repo && git apply $SD/patch$K.diff || { echo "patch does not apply to /repo"; exit 9; }
 cd /verif
 for c in $CHECKS; do
